@@ -1,6 +1,6 @@
 """Static description of model families and of the properties they serve (DESIGN.md section 7)."""
 
-U63 = str(2**63 - 1)     # scale at which 2 abstract units fit in 64 bits and 3 do not (model constant cap = 2)
+U63 = str(2**62)         # scale at which 3 abstract units fit in 64 bits and 4 units are exactly 2^64 (model constant cap = 3)
 
 FAMILIES = {
     # ---- L1 (x/ophost) ------------------------------------------------------------------------
@@ -59,7 +59,7 @@ PROPERTIES = {
     'C07': dict(families=['l2.deposit'], title='deposit neither lost nor blocking; hooks contained'),
     'C09': dict(families=['l2.deposit'], title='L2 bridged supply conserved'),
     'C10': dict(families=['l1.ledger'], title='L1 deposit sequences / events'),
-    'C11': dict(families=['l1.oracle'], title='output oracle log structure'),
+    'C11': dict(families=['l1.oracle', 'l1.ledger'], title='output oracle log structure'),
     'C12': dict(families=['l1.auth', 'l2.auth', 'val.valset'], title='authorization'),
     'C13': dict(families=['val.valset'], title='validator set equals what the engine was told'),
     'C14': dict(families=['val.plan'], title='executor change plan'),
